@@ -10,7 +10,7 @@ state after every block of the `_update` loop is compared with the model).
 `fix = false` is the code before that commit, kept to document the repaired defect (`…_old…` theorems).
 
 All theorems are about every state reachable from the initial state by ANY history of events (GitHub snapshots with
-arbitrary content — only PR numbers are distinct —, batch refreshes, heal+merge steps with arbitrary build / merge answers,
+arbitrary content — only PR numbers are distinct —, failed GitHub refreshes, batch refreshes, heal+merge steps with arbitrary build / merge answers,
 batch completions, entry-point flag settings, in any order).
 -/
 namespace HailVerif.C30
@@ -81,6 +81,7 @@ theorem merge_guard_run (fix : Bool) (es : List Event) (hw : ∀ e ∈ es, e.wf)
   cases e with
   | heal a => exact ⟨st, a, hr, merge_guard hr a n sha ok ho⟩
   | flag f => simp [step] at ho
+  | githubFailed => simp [step] at ho
   | github s => simp [step] at ho
   | batch => simp [step] at ho
   | done id ok' => simp [step] at ho
@@ -129,6 +130,7 @@ theorem only_github_sets_target (fix : Bool) (st : State) (e : Event) (hs : st.s
     (he : ∀ s, e ≠ .github s) : (step fix st e).1.sha = none := by
   cases e with
   | github s => exact absurd rfl (he s)
+  | githubFailed => exact hs
   | flag f => cases f <;> exact hs
   | batch => simp only [step]; rw [(evBatch_numbers fix st).2.2]; exact hs
   | done id ok => simp only [step]; rw [(evDone_props st id ok).2.2]; exact hs
@@ -231,6 +233,7 @@ theorem step_false_eq_true (st : State) (e : Event) (h : e = .batch → NoStaleS
       List.map_congr_left hs
     rw [this]
   | flag f => rfl
+  | githubFailed => rfl
   | github s => rfl
   | heal a => rfl
   | done id ok => rfl
